@@ -284,12 +284,13 @@ fn cursor_worker(prop: &str, thorough: bool, seed: u64, build: &str, start: u64,
         let mut rng = Rng::new(run_seed(seed, prop, build, run));
         let t = cursor::gen_trace(&mut rng, prop, thorough);
         let y0 = stats.yielded;
+        let c0 = stats.calls;
         let res = cursor::exec(&t, &mut stats);
         runs += 1;
         let h = fnv(&serde_json::to_vec(&t).unwrap());
         if digest {
             let v = res.as_ref().err().map(|v| format!("{}|{}|{}", v.kind, v.step, v.detail)).unwrap_or_default();
-            raw_out(&format!("D {} {:016x} 1\n", run, mix(&[h, fnv(v.as_bytes()), stats.calls])));
+            raw_out(&format!("D {} {:016x} 1\n", run, mix(&[h, fnv(v.as_bytes()), stats.calls - c0, stats.yielded - y0])));
         }
         if stats.yielded - y0 >= 3 {
             nontrivial += 1;
@@ -336,12 +337,13 @@ fn serde_worker(prop: &str, thorough: bool, seed: u64, build: &str, start: u64, 
         raw_out(&format!("B {}\n", run));
         let mut rng = Rng::new(run_seed(seed, prop, build, run));
         let t = serde_engine::gen_trace(&mut rng, prop, thorough);
+        let cells0 = stats.cells;
         let res = serde_engine::exec(&t, prop, &mut stats);
         runs += 1;
         let h = fnv(&serde_json::to_vec(&t).unwrap());
         if digest {
             let v = res.as_ref().err().map(|v| format!("{}|{}", v.kind, v.detail)).unwrap_or_default();
-            raw_out(&format!("D {} {:016x} 1\n", run, mix(&[h, fnv(v.as_bytes()), stats.cells])));
+            raw_out(&format!("D {} {:016x} 1\n", run, mix(&[h, fnv(v.as_bytes()), stats.cells - cells0, matches!(res, Ok(true)) as u64])));
         }
         let executed = !matches!(res, Ok(false));
         if executed && (t.cols > 0 || !t.muts.is_empty() || !t.byte_muts.is_empty()) {
